@@ -107,6 +107,10 @@ func RunJob(j *Job) *Stats {
 			break
 		}
 		o := f.Run(i)
+		for try := 0; try < 4 && o.Infra != ""; try++ { // infrastructure failures are retried, see seq
+			time.Sleep(time.Duration(50<<try) * time.Millisecond)
+			o = f.Run(i)
+		}
 		st.Cases++
 		st.Steps += o.Steps
 		st.Checks += o.Checks
